@@ -9,7 +9,7 @@
       `propForbidden` of the specification (nodeElementURIs / propertyElementURIs);
     * the attribute names the decoder rejects on node elements and on empty property elements are
       names the grammar rejects there (the decoder never refuses a propertyAttributeURI by name) —
-      except the catch-all `default` rejection on empty property elements, which is known finding D32
+      except the catch-all `default` rejection on empty property elements, which is finding C09-rdf-ns-property-attr (repaired by patch rx-4)
       and is reported by `emptyEltRejectsOtherRdfAttrs`;
     * T1: a code point is accepted by `validateID` as first / later character of an rdf:ID or rdf:nodeID
       value iff it is an NCName start / NCName character of the specification (all 1,114,112 code points);
@@ -44,7 +44,7 @@ theorem gen_forbidden_elements :
     (nodeEltSites ++ propEltSites).all (fun f => Gen.RX.forbiddenElements.any (fun e => e.1 == f)) = true := by
   decide
 
-/-- the decoder's catch-all rejection of RDF-namespace attributes on empty property elements (D32) -/
+/-- the decoder's catch-all rejection of RDF-namespace attributes on empty property elements (finding C09-rdf-ns-property-attr) -/
 def emptyEltRejectsOtherRdfAttrs : Bool :=
   Gen.RX.forbiddenAttributes.any (fun e => e.2 == [[0x64, 0x65, 0x66, 0x61, 0x75, 0x6c, 0x74]])
 
